@@ -20,6 +20,7 @@ import (
 	"github.com/anishathalye/porcupine"
 	"github.com/rs/zerolog"
 	"github.com/theparanoids/ysshra/agent/shimagent"
+	"github.com/theparanoids/ysshra/agent/yubiagent"
 	"golang.org/x/crypto/ssh"
 	"golang.org/x/crypto/ssh/agent"
 
@@ -52,6 +53,9 @@ type C11Plan struct {
 	Init     []string       `json:"init"`
 	InitMem  []string       `json:"init_mem,omitempty"`
 	Tasks    [][]COp        `json:"tasks"`
+	// Wire: every client task talks to the shim through its own connection served by yubiagent.ServeAgent on
+	// its own task (as the agent daemon does), instead of calling the shim directly.
+	Wire     bool           `json:"wire,omitempty"`
 	Strategy sched.Strategy `json:"strategy"`
 }
 
@@ -60,7 +64,7 @@ func pick[T any](r *sim.Rng, xs []T) T { return xs[r.Intn(len(xs))] }
 var c11Ops = []string{"list", "signers", "sign", "add", "remove", "removeall", "addhard", "lock", "unlock", "ext", "forward", "usesigner"}
 
 func genC11(r *sim.Rng, tier string) any {
-	p := &C11Plan{NoUp: r.Bool(0.4)}
+	p := &C11Plan{NoUp: r.Bool(0.4), Wire: r.Bool(0.3)}
 	nk := r.Range(2, 4)
 	for i := 0; i < nk; i++ {
 		p.Keys = append(p.Keys, worlds.SKey{Role: fmt.Sprintf("K%d", i), Kind: pick(r, []string{"ed25519", "ed25519", "ecdsa256"})})
@@ -97,6 +101,9 @@ func genC11(r *sim.Rng, tier string) any {
 		return out
 	}
 	nt := pick(r, []int{2, 2, 3, 3, 4, 6, 8, 16})
+	if p.Wire && nt > 8 {
+		nt = 8 // two tasks per client in wire mode
+	}
 	maxOps := 40
 	weights := []int{14, 14, 12, 8, 6, 1, 8, 2, 3, 10, 10, 8}
 	if r.Bool(0.3) {
@@ -213,6 +220,7 @@ type histOp struct {
 }
 
 type linIn struct {
+	Wire   bool
 	Op     COp
 	Ident  shimmodel.Ident
 	UpSnap []string
@@ -300,7 +308,9 @@ func linModel(now int64) porcupine.Model {
 				}
 			case "signers":
 				l, ok := m.List(now)
-				if !ok {
+				if !ok && in.Wire {
+					legal = !out.Err && len(out.Keys) == 0 // the client builds its signers from a list request
+				} else if !ok {
 					legal = out.Err
 				} else {
 					legal = !out.Err && match(out.Keys, l.Must, l.May)
@@ -402,10 +412,8 @@ func execC11(t *testing.T, raw json.RawMessage) *sim.Outcome {
 	rs := &runState{remaining: len(p.Tasks)}
 	doneObj := &struct{ name string }{"clients-done"}
 
-	var runOp func(task, idx int, op COp)
-	var lastSigners []ssh.Signer
-	_ = lastSigners
-	runOp = func(task, idx int, op COp) {
+	var runOp func(shim shimagent.ShimAgent, task, idx int, op COp)
+	runOp = func(shim shimagent.ShimAgent, task, idx int, op COp) {
 		if op.Op == "usesigner" {
 			// first list the signers (an operation of its own), then sign through the one for Role
 			var sg []ssh.Signer
@@ -547,12 +555,37 @@ func execC11(t *testing.T, raw json.RawMessage) *sim.Outcome {
 			a.Close()
 			return
 		}
+		yubi := yubiagent.VerifNewServer(shim, "", true)
 		for ti := range p.Tasks {
 			ti := ti
+			if !p.Wire {
+				s.Go(fmt.Sprintf("client%d", ti), false, func() {
+					for oi, op := range p.Tasks[ti] {
+						runOp(shim, ti, oi, op)
+					}
+					rs.doneOne()
+					s.Wake(doneObj)
+				})
+				continue
+			}
+			cc, sc := schedconn.Pipe(fmt.Sprintf("conn%d", ti))
+			s.Go(fmt.Sprintf("server%d", ti), false, func() {
+				defer func() {
+					if r := recover(); r != nil {
+						rs.tagErr(fmt.Sprintf("PANIC server task of connection %d: %v @ %s", ti, r, panicSite(debug.Stack())))
+					}
+					sc.Close()
+				}()
+				yubiagent.ServeAgent(yubi, sc)
+			})
 			s.Go(fmt.Sprintf("client%d", ti), false, func() {
-				for oi, op := range p.Tasks[ti] {
-					runOp(ti, oi, op)
+				cli, err := yubiagent.NewClientFromConn(cc)
+				if err == nil {
+					for oi, op := range p.Tasks[ti] {
+						runOp(cli, ti, oi, op)
+					}
 				}
+				cc.Close()
 				rs.doneOne()
 				s.Wake(doneObj)
 			})
@@ -562,8 +595,8 @@ func execC11(t *testing.T, raw json.RawMessage) *sim.Outcome {
 				s.Wait(doneObj, "join")
 			}
 			// final observation, part of the history
-			runOp(len(p.Tasks), 0, COp{Op: "list"})
-			runOp(len(p.Tasks), 1, COp{Op: "signers"})
+			runOp(shim, len(p.Tasks), 0, COp{Op: "list"})
+			runOp(shim, len(p.Tasks), 1, COp{Op: "signers"})
 			a.Close()
 		})
 	})
@@ -613,6 +646,10 @@ func execC11(t *testing.T, raw json.RawMessage) *sim.Outcome {
 		}
 	}
 	for _, e := range tagErrs {
+		if strings.HasPrefix(e, "PANIC ") {
+			o.Fail("C11.no_crash", "server_panic", 0, "%s", e)
+			continue
+		}
 		o.Fail("C11.own_reply", "foreign_reply", 0, "%s", e)
 	}
 	checkDiscipline(o, a, b)
@@ -620,7 +657,7 @@ func execC11(t *testing.T, raw json.RawMessage) *sim.Outcome {
 	ops := []porcupine.Operation{{ClientId: len(p.Tasks) + 1, Input: linIn{Op: COp{Op: "init"}, Init: model}, Output: cOut{}, Call: -2, Return: -1}}
 	maxRet := 0
 	for _, h := range hist {
-		in := linIn{Op: h.Op}
+		in := linIn{Op: h.Op, Wire: p.Wire && h.Task < len(p.Tasks)}
 		if h.Op.Role != "" {
 			in.Ident = cat.Ident(h.Op.Role, 0, now)
 		}
@@ -649,7 +686,10 @@ func execC11(t *testing.T, raw json.RawMessage) *sim.Outcome {
 		sig = append(sig, fmt.Sprintf("%d:%s:%v", h.Task, h.Op.Op, h.Out.Err))
 	}
 	sort.Strings(sig)
-	o.Signature = fmt.Sprintf("noup=%v|%s", p.NoUp, strings.Join(sig, ","))
+	o.Signature = fmt.Sprintf("noup=%v|wire=%v|%s", p.NoUp, p.Wire, strings.Join(sig, ","))
+	if p.Wire {
+		o.Probe("wire_stack_run")
+	}
 	for _, h := range hist {
 		o.Logf("task %d op %d %s %s -> err=%v keys=%v", h.Task, h.Idx, h.Op.Op, h.Op.Role, h.Out.Err, h.Out.Keys)
 	}
